@@ -65,7 +65,7 @@ func (Engine) Describe(prop string) core.Description {
 			"self-inverse relationships are never generated",
 			"the laws on Rel values are sampled over the name pool, not enumerated over all strings",
 		}
-		d.Probes = []string{"colliding-concatenation-pair", "underscore-colliding-relationships", "two-way-pair", "one-way-rel", "same-type-pair", "rels-after-removal"}
+		d.Probes = []string{"colliding-concatenation-pair", "underscore-colliding-relationships", "two-way-pair", "one-way-rel", "same-type-pair", "rels-after-removal", "rels-peeked-while-building", "pair-added-with-AddTwoWayRel"}
 	}
 
 	return d
